@@ -186,6 +186,31 @@ pub fn cond_expr(c: &Cond) -> Expr {
                 CmpOp::Ge => l.ge(r),
             }
         }
+        Cond::Arith(col, aop, l, op, rhs) => {
+            let c = Expr::col(col.as_str());
+            let a = match aop {
+                AOp::Add => c + lit(l),
+                AOp::Sub => c - lit(l),
+                AOp::Mul => c * lit(l),
+                AOp::Div => c / lit(l),
+                AOp::And => c & lit(l),
+                AOp::Or => c | lit(l),
+                AOp::Xor => c ^ lit(l),
+                AOp::Shl => c << lit(l),
+                AOp::Shr => c >> lit(l),
+                AOp::Neg => -c,
+                AOp::Inv => c.bitinv(),
+            };
+            let r = lit(rhs);
+            match op {
+                CmpOp::Eq => a.eq(r),
+                CmpOp::Ne => a.ne(r),
+                CmpOp::Lt => a.lt(r),
+                CmpOp::Le => a.le(r),
+                CmpOp::Gt => a.gt(r),
+                CmpOp::Ge => a.ge(r),
+            }
+        }
         Cond::Truthy(col) => Expr::col(col.as_str()),
         Cond::Const(b) => Expr::boolean(*b),
         Cond::And(a, b) => cond_expr(a).and(cond_expr(b)),
